@@ -108,6 +108,24 @@ func mkSlice(n string) []int {
 	return []int{2, 2}
 }
 
+// a comparable result type for which == and deep equality differ: every mkPtr call makes a fresh pointer
+type box struct {
+	V   int
+	Sub *int
+}
+
+func mkPtr(n string) *box {
+	switch n {
+	case "R0":
+		return nil
+	case "R1":
+		one := 1
+		return &box{V: 1, Sub: &one}
+	}
+	two := 2
+	return &box{V: 2, Sub: &two}
+}
+
 type condSink[R any] interface {
 	errs(...error)
 	types(...any)
@@ -307,6 +325,9 @@ func init() {
 				mis = append(mis, classifyRow(row, mkString, false)...)
 				if k%3 == 0 {
 					mis = append(mis, classifyRow(row, mkSlice, true)...)
+				}
+				if k%3 == 1 {
+					mis = append(mis, classifyRow(row, mkPtr, k%2 == 0)...)
 				}
 			})
 			if len(row.Conds) > 0 && row.E.Op != "nil" {
